@@ -1,4 +1,5 @@
 import Femio.Model.FistrMsh
+import Femio.Model.FistrCanon
 import Mathlib.Data.List.Sort
 import Mathlib.Data.List.Nodup
 import Mathlib.Data.List.Perm.Subperm
@@ -9,9 +10,7 @@ import Mathlib.Data.List.Perm.Subperm
 namespace Femio.Fistr.RU
 open Femio.Fistr
 
-/-- rows of `tbl` re-bound to the ids `used`, in that order -/
-def pick {β} (used : List Nat) (tbl : List (Nat × β)) : List (Nat × β) :=
-  used.filterMap fun i => (lookupN i tbl).map fun v => (i, v)
+/- `pick used tbl` (rows of `tbl` re-bound to the ids `used`, in that order) is defined in `Model/FistrCanon.lean`. -/
 
 def refs (elems : List (Nat × List (Nat × List Nat))) : List Nat := elems.flatMap fun b => b.2.flatMap (·.2)
 
